@@ -13,7 +13,7 @@
 From Coq Require Import List ZArith Bool Lia.
 Import ListNotations.
 From V Require Import Valid.Hier Valid.Walk Valid.FlatRegion Model.Graph Model.Edits Model.Edits2 Model.Edits3
-                      Model.LoopEdit Model.LoopSpec Model.JoinPath Model.Refine Model.CbPath.
+                      Model.TableSpec Model.LoopEdit Model.LoopSpec Model.JoinPath Model.Refine Model.CbPath.
 Local Open Scope Z_scope.
 
 (* ---------- enumerate / reverse lookup ---------- *)
@@ -104,6 +104,32 @@ Proof.
     + left. exists t1, t1'. split; [reflexivity|]. split; [reflexivity|]. apply (Hedge 0%nat); reflexivity.
     + right. cbn. split; discriminate.
   - exfalso. eapply Hnb. reflexivity.
+Qed.
+
+(* a branching block whose successors were replaced position by position: its table follows *)
+Lemma compat_branch x b jt' be' cc w tbl tbl' :
+  e_kind b = EBranch cc w tbl -> ~ F w -> NoDup (map fst tbl) -> NoDup (e_jt b) ->
+  length (e_jt b) = length jt' ->
+  (forall k s t, nth_error (e_jt b) k = Some s -> nth_error jt' k = Some t -> t = s \/ ~ In t (e_jt b)) ->
+  table_rewrite tbl (e_jt b) jt' (e_jt b) 0%nat [] = Some tbl' ->
+  (forall k t t', nth_error (e_jt b) k = Some t -> nth_error jt' k = Some t' -> Edge h' r r' strict F Old x t t') ->
+  Compat h' r r' strict F Old x (node_of top (x, b)) (node_of top (x, mkE jt' be' (EBranch cc w tbl'))).
+Proof.
+  intros Ek Hw Hkeys Hnd Hlen Hposr Htr Hedge.
+  unfold Compat, node_of. cbn [n_kind n_jt fst snd e_jt e_kind]. unfold kind_of. cbn [e_kind]. rewrite Ek.
+  split; [reflexivity|]. split; [exact Hw|]. intros z.
+  pose proof (table_rewrite_lookup tbl (e_jt b) jt' Hkeys (eq_sym Hlen) Hposr Hnd tbl' Htr z) as Hz.
+  unfold proceed. cbn [n_jt].
+  destruct (zassoc z tbl) as [t0|] eqn:Hzt.
+  - destruct Hz as [Hin0 Hout0]. destruct (zmem t0 (e_jt b)) eqn:Hm.
+    + apply zmem_In in Hm. apply In_nth_error in Hm as [k Hk]. rewrite (Hin0 k Hk).
+      destruct (nth_error jt' k) as [t0'|] eqn:Hk'.
+      * assert (zmem t0' jt' = true) as -> by (apply zmem_In; eapply nth_error_In; eauto).
+        eapply Hedge; eauto.
+      * exfalso. apply nth_error_None in Hk'. assert (k < length (e_jt b))%nat.
+        { apply nth_error_Some. intros Hc. pose proof (eq_trans (eq_sym Hc) Hk) as X. discriminate X. } lia.
+    + apply zmem_false in Hm. rewrite (Hout0 Hm). exact I.
+  - rewrite Hz. exact I.
 Qed.
 End CompatOf.
 
